@@ -134,7 +134,25 @@ def TimeZoneName.new (input : List Nat) : P (List Nat) :=
   if !(decide (NAME_MIN ≤ (input.length : Int)) && decide ((input.length : Int) ≤ NAME_MAX)) then .err
   else if input.all nameChar then .ok input else .err
 
+/-- `LocalTimeType::new` (after the repair of finding F32, commit 770977e): an offset of 24 hours or
+more in magnitude is refused — `Local` hands offsets out as `FixedOffset`, strictly within 24 h -/
 def Ltt.new (ut_offset : Int) (is_dst : Bool) (name : Option (List Nat)) : P Ltt :=
+  if ut_offset ≤ -86400 ∨ ut_offset ≥ 86400 then .err
+  else match name with
+    | some n =>
+      match TimeZoneName.new n with
+      | .ok n' => .ok ⟨ut_offset, is_dst, some n'⟩
+      | .err => .err
+      | .panic => .panic
+    | none => .ok ⟨ut_offset, is_dst, none⟩
+
+/-- `LocalTimeType::with_offset` (used by `TimeZone::fixed`): same offset check, no designation -/
+def Ltt.with_offset (ut_offset : Int) : P Ltt :=
+  if ut_offset ≤ -86400 ∨ ut_offset ≥ 86400 then .err else .ok ⟨ut_offset, false, none⟩
+
+/-- `LocalTimeType::new` AS IT WAS BEFORE the repair of F32 (only `i32::MIN` refused); kept for the
+pinned-behaviour theorem `Props.C16.local_panics_pinned_before_F32` only -/
+def Ltt.new_before_F32 (ut_offset : Int) (is_dst : Bool) (name : Option (List Nat)) : P Ltt :=
   if ut_offset = I32_MIN then .err
   else match name with
     | some n =>
